@@ -40,5 +40,6 @@ MCObj3 == [ a    |-> V("A", <<"A">>, {"x", "y"}, "variant"),
             b    |-> V("B", <<"B">>, {"x"}, "variant"),
             m    |-> V("C", <<"B", "C">>, {"x"}, "variant"),
             ab2  |-> V("B", <<"A", "B">>, {"y"}, "addon"),           \* competes with ab for id B (also below a parent outside the forest)
-            pab  |-> V("AB", <<"AB">>, {"x"}, "variant") ]           \* plain top-level variant with the id of the dashed one (sab), another UID
+            pab  |-> V("AB", <<"AB">>, {"x"}, "variant"),
+            absrc |-> V("B", <<"A", "B">>, {"x", "s"}, "addon") ]    \* lists the pseudo-architecture (token s = "src") its parent does not list: foreign           \* plain top-level variant with the id of the dashed one (sab), another UID
 =============================================================================
